@@ -99,7 +99,8 @@ def fitted_domain(s_, X):
     if getattr(s_, 'edge_knots', None) is not None and s_._name == 'spline_term':
         return [float(v) for v in s_.edge_knots_]
     col = X[:, int(s_.feature)]
-    if s_._name == 'factor_term':
+    if s_._name == 'factor_term' or (s_._name == 'spline_term' and getattr(s_, 'dtype', 'numerical') == 'categorical'):
+        # categorical features (factor terms; spline terms declared dtype='categorical'): half a category either side
         return [float(col.min()) - 0.5, float(col.max()) + 0.5]
     return [float(col.min()), float(col.max())]
 
@@ -178,6 +179,7 @@ def run(ctx):
         pos += nops
     _default_grid_cases(ctx, meta, st_go)
     run_large(ctx, meta)
+    run_after_search(ctx, pygam)
 
 
 def _check_model(ctx, cls_name, pr, gam, toks, grids, outs, st, st_or, st_g, st_go):
@@ -422,6 +424,111 @@ def run_large(ctx, meta):
             if bad:
                 ctx.fail(st, dict(kind='large-rows', cls=cls_name), dict(cls=cls_name, tokens=toks, n=n), observed=bad,
                          expected='row-wise evaluation independent of the batch', oracle='same rows queried alone')
+
+
+def run_after_search(ctx, pygam):
+    """histories that end in a grid search which changes the coefficient layout: the model that comes out is a fitted
+    model like any other — the decomposition must hold for it, each partial dependence must be the term's own columns
+    times the term's own coefficient block, and the interval of a term must use that block of the covariance"""
+    st = 'decomp.after-search'
+    ctx.stream(st, 'history fit -> queries (predict, partial_dependence with intervals, confidence_intervals) -> gridsearch over n_splines (2-D grid rows, keep_best) -> '
+                   'decomposition, per-term blocks (columns x coefficient block via the public term list) and partial-dependence intervals of the resulting model')
+    from pygam import LinearGAM, PoissonGAM, GammaGAM, s, te
+    from scipy import stats as sps
+    ncase = 8 if ctx.tier == 'quick' else 60
+    for k in range(ncase):
+        rng = ctx.subrng('after-search', k)
+        rs = np.random.RandomState(rng.getrandbits(32))
+        n = rng.choice([60, 120])
+        X = rs.uniform(-1, 1, size=(n, 4))
+        f = np.sin(2 * X[:, 0]) + 0.5 * X[:, 1] ** 2 + 0.3 * X[:, 2] * X[:, 3]
+        cls = [LinearGAM, PoissonGAM, GammaGAM][k % 3]
+        if cls is LinearGAM:
+            y = f + 0.2 * rs.randn(n)
+        elif cls is PoissonGAM:
+            y = rs.poisson(np.exp(0.5 * f)).astype(float)
+        else:
+            y = np.exp(0.3 * f) * rs.gamma(8, 1 / 8.0, size=n)
+        shape = k % 4
+        a, b = rng.choice([6, 8, 10]), rng.choice([5, 7, 9])
+        if shape == 0:
+            terms, grid = s(0, n_splines=a) + s(1, n_splines=b), [[a + 4, b], [a + 7, b + 3]]
+        elif shape == 1:
+            terms, grid = s(0, n_splines=a) + s(1, n_splines=b) + s(2, n_splines=6), [[a + 5, b + 2, 6], [a, b + 6, 9]]
+        elif shape == 2:
+            terms, grid = s(0, n_splines=a) + te(2, 3, n_splines=[4, 5]) + s(1, n_splines=b), [[a + 3, 5, 4, b + 4], [a + 6, 4, 6, b]]
+        else:
+            terms, grid = s(1, n_splines=b, by=0) + s(0, n_splines=a), [[b + 5, a], [b + 8, a + 2]]
+        sig = dict(cls=cls.__name__, shape=shape, a=a, b=b, n=n)
+        ctx.case(st, sig, nontrivial=True)
+        ctx.count('after-search model class', cls.__name__)
+        buf = io.StringIO()
+        try:
+            with contextlib.redirect_stdout(buf), contextlib.redirect_stderr(buf):
+                gam = cls(terms, max_iter=50)
+                gam.fit(X, y)
+                # queries that a caching layer would serve from
+                gam.predict(X[:5])
+                gam.confidence_intervals(X[:5], width=0.9)
+                for ti, t in enumerate(gam.terms):
+                    if not t.isintercept:
+                        gam.partial_dependence(ti, X=X[:5], width=0.9)
+                        gam.partial_dependence(ti)
+                gam.gridsearch(X, y, n_splines=np.array(grid), progress=False)
+            layout_changed = True
+            Xq = rs.uniform(-1, 1, size=(12, 4))
+            coef = np.asarray(gam.coef_, dtype=float)
+            cov = np.asarray(gam.statistics_['cov'], dtype=float)
+            B = np.asarray(gam.terms.build_columns(Xq).todense(), dtype=float)
+            if B.shape[1] != len(coef):
+                ctx.fail(st, dict(kind='layout'), dict(sig, grid=grid), observed=dict(columns=B.shape[1], coefs=len(coef)), expected='one column per coefficient',
+                         oracle='terms.build_columns vs coef_ of the model after the search')
+                continue
+            lp = B @ coef
+            total = np.zeros(len(Xq))
+            bad = None
+            known = bool(gam.distribution._known_scale)
+            df = n - float(gam.statistics_['edof'])
+            crit = sps.norm.ppf(0.95) if known else sps.t.ppf(0.95, df=df)
+            for ti, t in enumerate(gam.terms):
+                idx = np.asarray(gam.terms.get_coef_indices(ti))
+                block = B[:, idx] @ coef[idx]
+                if t.isintercept:
+                    total += block
+                    continue
+                pd, iv = gam.partial_dependence(ti, X=Xq, width=0.9)
+                pd = np.asarray(pd, dtype=float)
+                total += pd
+                tol = 1e-8 * (1 + np.abs(block).max())
+                if pd.shape != block.shape or np.abs(pd - block).max() > tol:
+                    bad = dict(reason='partial dependence of term %d is not its columns times its coefficient block' % ti,
+                               maxdiff=float(np.abs(pd - block).max()) if pd.shape == block.shape else None)
+                    break
+                se = np.sqrt(np.maximum(np.einsum('ij,jk,ik->i', B[:, idx], cov[np.ix_(idx, idx)], B[:, idx]), 0))
+                want = np.c_[block - crit * se, block + crit * se]
+                iv = np.asarray(iv, dtype=float)
+                if iv.shape != want.shape or np.abs(iv - want).max() > 1e-6 * (1 + np.abs(want).max()):
+                    bad = dict(reason='partial-dependence interval of term %d does not use the term block of the covariance' % ti)
+                    break
+            if bad is None:
+                lname = gam.link._name
+                from harness.gen import fitgen
+                mu = np.asarray(gam.predict_mu(Xq), dtype=float)
+                with np.errstate(all='ignore'):
+                    lpi = np.asarray(fitgen.np_link(lname, 1.0, mu), dtype=float)
+                if np.abs(lpi - total).max() > 1e-7 * (1 + np.abs(total).max()) or np.abs(lp - total).max() > 1e-8 * (1 + np.abs(total).max()):
+                    bad = dict(reason='link(predict_mu) != intercept + sum of partial dependences', maxdiff=float(np.abs(lpi - total).max()))
+            if bad:
+                ctx.fail(st, dict(kind='after-search', why=bad['reason'].split(' ')[0]), dict(sig, grid=grid, seed_key=k), observed=bad,
+                         expected='the model left by gridsearch decomposes like any fitted model', oracle='public API identity on the model after the search')
+        except Exception as e:  # noqa
+            import traceback
+            tb = traceback.format_exc()
+            if common.REPO in tb:
+                ctx.fail(st, dict(kind='exception', exc=type(e).__name__), dict(sig, grid=grid), observed='%s: %s' % (type(e).__name__, str(e)[:300]),
+                         expected='queries on the model after the search', oracle='public API must not raise on valid input', detail=tb[-1500:])
+            else:
+                raise
 
 
 def termgen_flatten(v):
